@@ -192,7 +192,7 @@ async fn main() {
     assert_eq!(m.ask("http reset"), "ok");
     for case in 0..cases {
         // deterministic enumeration first (stage × stray × leader), then seeded
-        let n = if case % 4 == 3 { 3 } else { 2 }; let leader = (case / 2) % n; let stage = match case % 3 { 0 => 'A', 1 => 'B', _ => 'U' };
+        let n = if case % 5 == 3 { 3 } else { 2 }; let leader = (case / 2) % n; let stage = match case % 4 { 0 => 'A', 1 => 'B', 2 => 'U', _ => 'L' };
         let prog = if stage == 'B' { P2BIG } else if n == 3 { P3 } else if case % 5 == 0 { P2C } else { P2 }; let n = if prog == P2BIG { 2 } else { n }; let leader = leader % n;
         let id = Uuid::from_u128(0x1000 + case as u128 + ((seed as u128) << 32)); let idn = 0x1000 + case as u64;
         let ctx = Arc::new(Ctx { client: reqwest::Client::builder().timeout(Duration::from_secs(20)).build().unwrap(), parts: parts_all[..n].to_vec(), out: out_url.clone(), obs: Mutex::new(vec![]) });
@@ -205,6 +205,17 @@ async fn main() {
                 for p in 0..n { for s in [Stray::Run, Stray::ConstsUnknown, Stray::MsgOob] { let (st, ty) = ctx.stray(s, p, leader, id, prog).await; stray_log.push(format!("{s:?}@{p} before anything -> {st} {ty}"));
                     if st != 404 { bad.push(format!("{s:?} for an unknown computation answered {st} {ty}, want 404")); } } }
                 for p in 0..n { tasks.push((p, sched(p))); }
+            }
+            'L' => {
+                // the LEADER is scheduled first: its validate request reaches followers that have not been scheduled yet (the route creates their state
+                // machine: ValidateRequested); stray requests reach such a follower; then the followers are scheduled
+                tasks.push((leader, sched(leader))); if !wait_registered(&ctx, follower, id).await { bad.push("the leader's validate request never registered the computation at the follower".into()); }
+                // the registration was made by the leader SERVER's validate request, which the harness does not see: tell the model (inferred from the probe turning from 404 to 400)
+                ctx.obs.lock().unwrap().push(Obs { srv: follower, route: "validate", id, status: 200, typ: "inferred".into() });
+                for s in [[Stray::Run, Stray::ConstsUnknown, Stray::MsgOob][(case / 4) % 3]] {
+                    let (st, ty) = ctx.stray(s, follower, leader, id, prog).await; stray_log.push(format!("{s:?}@{follower} validated-before-scheduled -> {st} {ty}")); *dist.entry(format!("stray:{s:?}/validate-requested")).or_default() += 1;
+                    if !allowed(s).contains(&st) { bad.push(format!("{s:?} at a follower that has the leader's validate but no policy yet answered {st} {ty}, want one of {:?}", allowed(s))); } }
+                for p in 0..n { if p != leader { tasks.push((p, sched(p))); } }
             }
             'A' => {
                 // the follower is scheduled and waits for the leader (AwaitingValidation); stray requests reach it; then the leader is scheduled
@@ -245,10 +256,10 @@ async fn main() {
             let ans = m.ask(&format!("http {} req {} {} {}", o.srv, o.route, idn, reply)); steps += 1;
             let want_status = ans.split("status=").nth(1).unwrap_or("?").to_string(); let reached = ans.contains("reached=1");
             let typ_is_unknown = o.typ == "UnknownComputationId";
-            if want_status != o.status.to_string() || reached == typ_is_unknown { disagreements.push(json!({"server": o.srv, "route": o.route, "status": o.status, "type": o.typ, "model": ans, "case": case})); } }
+            if o.typ != "inferred" && (want_status != o.status.to_string() || reached == typ_is_unknown) { disagreements.push(json!({"server": o.srv, "route": o.route, "status": o.status, "type": o.typ, "model": ans, "case": case})); } }
         for p in 0..n { if gone[p] { assert_eq!(m.ask(&format!("http {p} fin {idn}")), "ok"); let ans = m.ask(&format!("http {p} req run {idn} ok")); steps += 1; if !ans.contains("status=404") { disagreements.push(json!({"server": p, "after": "fin", "model": ans})); } } }
         if std::env::var("VERIF_DEBUG").is_ok() { eprintln!("case {case} stage {stage} n {n} leader {leader}: {stray_log:?} bad={bad:?}"); }
-        execs += 1; *dist.entry(format!("stage:{}", match stage { 'A' => "follower-waits", 'B' => "under-way", _ => "unknown-id-first" })).or_default() += 1; *dist.entry(format!("n:{n}")).or_default() += 1;
+        execs += 1; *dist.entry(format!("stage:{}", match stage { 'A' => "follower-waits", 'B' => "under-way", 'L' => "leader-first", _ => "unknown-id-first" })).or_default() += 1; *dist.entry(format!("n:{n}")).or_default() += 1;
         if !bad.is_empty() { failures.push(json!({"witness": "C14:http-stray", "failure": bad, "case": json!({"case": case, "n": n, "leader": leader, "stage": stage.to_string(), "program": prog, "strays": stray_log})})); }
         if samples.len() < 3 { samples.push(json!({"case": case, "n": n, "leader": leader, "stage": stage.to_string(), "strays": stray_log})); }
     }
